@@ -184,6 +184,20 @@ fn render_into(t: &T, out: &mut String) {
         }
         T::Not(e) | T::Neg(e) => {
             out.push(if matches!(t, T::Not(_)) { '!' } else { '-' });
+            // `!-x`, the one spelling in which the grammar takes two prefix operators without parentheses (the
+            // parenthesised spelling is `T::Not(T::P(T::Neg(x)))`)
+            if let (T::Not(_), T::Neg(inner)) = (t, e.as_ref()) {
+                if is_atom(inner) {
+                    let mut text = String::new();
+                    render_into(inner, &mut text);
+                    // (not in front of `%`, `*`, `<`, `>`: prefix minus there is the known finding expr:-x:…)
+                    if text.starts_with(|c: char| c.is_ascii_alphanumeric() || c == '$' || c == '(' || c == '_') {
+                        out.push('-');
+                        out.push_str(&text);
+                        return;
+                    }
+                }
+            }
             if is_atom(e) {
                 render_into(e, out);
             } else {
@@ -1189,6 +1203,8 @@ enum Dev {
     Paren,
     NotNeg,
     NegNot,
+    /// `!-x` written without parentheses
+    NotNegDirect,
 }
 
 fn apply_dev(d: Dev, t: T) -> T {
@@ -1198,7 +1214,8 @@ fn apply_dev(d: Dev, t: T) -> T {
         Dev::Not => T::Not(b(t)),
         Dev::Neg => T::Neg(b(t)),
         Dev::Paren => T::P(b(t)),
-        Dev::NotNeg => T::Not(b(T::Neg(b(t)))),
+        Dev::NotNeg => T::Not(b(T::P(b(T::Neg(b(t)))))),
+        Dev::NotNegDirect => T::Not(b(T::Neg(b(t)))),
         Dev::NegNot => T::Neg(b(T::Not(b(t)))),
     }
 }
@@ -1566,7 +1583,8 @@ fn self_check() -> Result<(), String> {
     let t5 = T::B(ADD, Box::new(T::B(SHL, l(1), l(2))), l(3));
     let t6 = T::B(EQ, Box::new(T::B(EQ, l(1), l(2))), l(3));
     let t7 = T::B(EQ, l(1), Box::new(T::B(EQ, l(2), l(3))));
-    let t8 = T::Not(Box::new(T::Neg(l(3))));
+    let t8 = T::Not(Box::new(T::P(Box::new(T::Neg(l(3))))));
+    let t9 = T::Not(Box::new(T::Neg(l(3))));
     for (t, want) in [
         (&t1, "1 + 2 * 7"),
         (&t2, "(1 + 2) * 7"),
@@ -1576,6 +1594,7 @@ fn self_check() -> Result<(), String> {
         (&t6, "1 == 2 == 7"),
         (&t7, "1 == (2 == 7)"),
         (&t8, "!(-7)"),
+        (&t9, "!-7"),
     ] {
         if r(t) != want {
             return Err(format!("renderer self-check: got `{}` want `{}`", r(t), want));
@@ -1683,7 +1702,7 @@ pub fn run(ctx: &Ctx, replay_case: Option<&Value>) -> i32 {
         strings: Mutex::new(HashSet::new()),
     };
     let leaves = all_leaves(thorough);
-    let all5 = vec![Dev::Not, Dev::Neg, Dev::Paren, Dev::NotNeg, Dev::NegNot];
+    let all5 = vec![Dev::Not, Dev::Neg, Dev::Paren, Dev::NotNeg, Dev::NegNot, Dev::NotNegDirect];
     let three = vec![Dev::Not, Dev::Neg, Dev::Paren];
     let full4 = vec![Dev::None, Dev::Not, Dev::Neg, Dev::Paren];
 
